@@ -121,79 +121,11 @@ func c30IsZeroMetric(e ast.Expr) bool {
 
 func c30ReleaseClauses(c *core.Ctx) {
 	c.Clause("C30.overrelease", func() {
-		f := c.Fn(semT + ".Release")
-		weight := f.Param(0)
-		name := func(acc c30Access) string {
-			if len(acc.Path) == 1 && acc.Root != nil && acc.Root == weight {
-				return "rel." + short(acc.Path[0])
-			}
-			if len(acc.Path) == 2 && acc.Path[0] == semT+".processing" {
-				return "held." + short(acc.Path[1])
-			}
-			return ""
-		}
-		root := &c30Scope{F: f}
-		// the subtraction happens only when held >= released for both components
-		type subSite struct {
-			c30Site
-			comp string
-		}
-		var subs []subSite
-		for _, s := range c30ViewSites(root, 2, func(sc *c30Scope) []c30Site {
-			var out []c30Site
-			for _, a := range assignments(sc.F) {
-				_, path := fieldPath(sc.F, a.LHS)
-				if len(path) == 2 && path[0] == semT+".processing" && a.Tok == token.SUB_ASSIGN {
-					out = append(out, c30Site{Hops: []c30Hop{{sc, a.Pt}}, Pos: a.Stmt.Pos()})
-				}
-			}
-			return out
-		}) {
-			last := s.Hops[len(s.Hops)-1]
-			a, _ := last.Pt.Node().(*ast.AssignStmt)
-			comp := ""
-			if a != nil && len(a.Lhs) == 1 {
-				if _, path := fieldPath(last.Sc.F, a.Lhs[0]); len(path) == 2 {
-					comp = path[1]
-				}
-			}
-			subs = append(subs, subSite{s, comp})
-		}
-		for _, s := range subs {
-			for _, comp := range []string{"Metric.Num", "Metric.Size"} {
-				ok, wit := c30SiteGuardedLin(s.c30Site, "rel."+comp+" - held."+comp+" <= 0", name)
-				c.Check(ok, "subtract "+short(s.comp)+" guarded by "+comp, "T4 GuardedBy", s.Pos, "held amount is reduced only when held."+comp+" >= released."+comp, "subtraction reachable with held."+comp+" < released."+comp+" (would wrap): "+f.DescribePath(wit))
-			}
-		}
-		c.ExpectAtLeast("subtractions in Release", len(subs), 2)
-		// over-release edge: processing zeroed, warning nil-guarded
-		zero := c30ViewSites(root, 2, func(sc *c30Scope) []c30Site {
-			var out []c30Site
-			for _, a := range assignsToField(sc.F, semT+".processing") {
-				if c30IsZeroMetric(a.RHS) {
-					out = append(out, c30Site{Hops: []c30Hop{{sc, a.Pt}}, Pos: a.Stmt.Pos()})
-				}
-			}
-			return out
-		})
-		c.Check(len(zero) == 1, "over-release zeroes held", "T7 Pairing", f.Pos(), "the over-release branch resets processing to the zero Metric", "Release (with the helpers it calls) does not contain exactly one assignment of the zero Metric to processing")
-		warn := c30ViewSites(root, 2, func(sc *c30Scope) []c30Site {
-			var out []c30Site
-			for _, cs := range sc.F.CallsTo(semT + ".warning") {
-				out = append(out, c30Site{Hops: []c30Hop{{sc, cs.Pt}}, Pos: cs.Pos()})
-			}
-			return out
-		})
-		c.Check(len(warn) == 1, "over-release reported", "T7 Pairing", f.Pos(), "the warning callback is invoked on the over-release branch", "warning callback is not invoked exactly once in Release (with the helpers it calls)")
-		if len(zero) == 1 && len(warn) == 1 {
-			ok, wit := c30SiteGuarded(warn[0], func(sc *c30Scope, ft core.Fact) bool {
-				cm, ok := core.NormCmp(ft)
-				return ok && cm.Op == token.NEQ && fieldNameOf(sc.F, cm.L) == semT+".warning" && core.IsNil(sc.F.Info(), cm.R)
-			})
-			c.Check(ok, "warning nil-guarded", "T4 GuardedBy", warn[0].Pos, "warning is called only when non-nil", "warning may be called when nil: "+f.DescribePath(wit))
-			okZ, _ := c30SiteGuardedLin(zero[0], "rel.Metric.Num - held.Metric.Num <= 0", name)
-			c.Check(!okZ, "zeroing not on the fits edge", "T4 GuardedBy", zero[0].Pos, "the reset is not taken on the edge where the release fits", "processing is reset on the edge where the release fits the held amount")
-		}
+		// decided on the inlined view of Release by reaching definitions, guard facts in linear normal form
+		// and path queries (c30_value.go): not on the number or the spelling of the statements that
+		// subtract, reset and report (they may work on a local copy of the counter and store the result
+		// once, live in a helper, or be duplicated per branch)
+		c30OverRelease(c)
 	})
 
 	c.Clause("C30.terminate", func() {
